@@ -435,6 +435,129 @@ def b_aggregate_dispatch(S):
     return out
 
 
+def _class_attr(cls, name):
+    for st in cls.body:
+        if isinstance(st, ast.Assign) and len(st.targets) == 1 and isinstance(st.targets[0], ast.Name) and st.targets[0].id == name:
+            return st.value
+        if isinstance(st, ast.AnnAssign) and isinstance(st.target, ast.Name) and st.target.id == name:
+            return st.value
+    return None
+
+
+def b_validator_table(S):
+    tree = ast.parse(S[TVALS])
+    classes = {n.name: n for n in tree.body if isinstance(n, ast.ClassDef)}
+    tuples = {}
+    for st in tree.body:
+        if isinstance(st, ast.Assign) and isinstance(st.targets[0], ast.Name) and st.targets[0].id in (
+            "MINOR_VALIDATORS", "MAJOR_VALIDATORS", "ALL_VALIDATORS", "MAJOR_ERRORS", "VALIDATION_REQUIRES_NODES"):
+            tuples[st.targets[0].id] = st.value
+
+    def names_of(node):
+        if isinstance(node, ast.Tuple):
+            return [ast.unparse(e) for e in node.elts]
+        if isinstance(node, ast.BinOp) and isinstance(node.op, ast.Add):
+            return names_of(node.left) + names_of(node.right)
+        if isinstance(node, ast.Name) and node.id in tuples:
+            return names_of(tuples[node.id])
+        raise Untranslatable(f"validator tuple shape: {ast.unparse(node)}")
+
+    def info(cname):
+        c = classes.get(cname)
+        if c is None:
+            raise Untranslatable(f"validator class {cname} not found")
+        base = classes.get("BaseValidator")
+        err = _class_attr(c, "ERROR") or _class_attr(base, "ERROR")
+        lso = _class_attr(c, "LINESTRING_ONLY")
+        if lso is None:
+            lso = _class_attr(base, "LINESTRING_ONLY")
+        dyn = any(isinstance(n, ast.Assign) and any(ast.unparse(t) == "cls.ERROR" for t in n.targets) for n in ast.walk(c))
+        if not isinstance(err, ast.Constant) or not isinstance(lso, ast.Constant):
+            raise Untranslatable(f"{cname}: ERROR / LINESTRING_ONLY not literal")
+        return cname, err.value, bool(lso.value), dyn
+
+    def lean_list(nm, cnames):
+        rows = [info(c) for c in cnames]
+        return f"def {nm} : List (String × String × Bool × Bool) := [\n  " + ",\n  ".join(
+            f'("{n}", "{e}", {str(l).lower()}, {str(d).lower()})' for n, e, l, d in rows) + "]\n"
+
+    out = "/-- (class name, ERROR, LINESTRING_ONLY, rewrites its ERROR at run time) in execution order -/\n"
+    out += lean_list("all_validators", names_of(tuples["ALL_VALIDATORS"]))
+    out += lean_list("major_validators", names_of(tuples["MAJOR_VALIDATORS"]))
+    me = []
+    for e in tuples["MAJOR_ERRORS"].elts:
+        txt = ast.unparse(e)
+        if not txt.endswith(".ERROR"):
+            raise Untranslatable("MAJOR_ERRORS shape")
+        me.append(info(txt[:-6])[1])
+    out += "def major_errors : List String := [" + ", ".join(f'"{x}"' for x in me) + "]\n"
+    out += "def requires_nodes : List String := [" + ", ".join(f'"{x}"' for x in names_of(tuples["VALIDATION_REQUIRES_NODES"])) + "]\n"
+    # strings the dynamic validator can write
+    ul = classes["UnderlappingSnapValidator"]
+    written = []
+    for n in ast.walk(ul):
+        if isinstance(n, ast.Assign) and any(ast.unparse(t) == "cls.ERROR" for t in n.targets):
+            v = ast.unparse(n.value)
+            if v.startswith("cls._"):
+                c = _class_attr(ul, v[4:])
+                written.append(c.value)
+            elif v.endswith(".ERROR"):
+                written.append(info(v[:-6])[1])
+            else:
+                raise Untranslatable(f"cls.ERROR = {v}")
+    out += "def underlap_written : List String := [" + ", ".join(f'"{x}"' for x in written) + "]\n"
+    return out
+
+
+def b_validation_defaults(S):
+    tree = ast.parse(S[TVAL])
+    cls = find_func(tree, "Validation")
+    want = ["SNAP_THRESHOLD", "SNAP_THRESHOLD_ERROR_MULTIPLIER", "AREA_EDGE_SNAP_MULTIPLIER", "TRIANGLE_ERROR_SNAP_MULTIPLIER",
+            "OVERLAP_DETECTION_MULTIPLIER", "STACKED_DETECTOR_BUFFER_MULTIPLIER", "SHARP_AVG_THRESHOLD", "SHARP_PREV_SEG_THRESHOLD"]
+    out = ""
+    for w in want:
+        v = _class_attr(cls, w)
+        if not isinstance(v, ast.Constant) or not isinstance(v.value, (int, float)):
+            raise Untranslatable(f"Validation.{w} default not a literal")
+        out += f"def {w} : Rat := {dec_to_rat(ast.get_source_segment(S[TVAL], v))}\n"
+    ec = _class_attr(cls, "ERROR_COLUMN")
+    out += f'def ERROR_COLUMN : String := "{ec.value}"\n'
+    # the candidate window extension passed to determine_trace_candidates
+    hits = [n for n in ast.walk(find_func(tree, "Validation.run_validation")) if isinstance(n, ast.keyword) and n.arg == "extend_bounds_by"]
+    if len(hits) != 1:
+        raise Untranslatable("extend_bounds_by keyword not found in run_validation")
+    C = {f"self.{w}": w for w in want}
+    T = {f"self.{w}": "Rat" for w in want}
+    out += "\n" + translate_expression(S[TVAL], hits[0].value, "candidate_window_margin", {}, "Rat", C, types=T, default_num="Rat")
+    return out
+
+
+def b_junction_shift(S):
+    src = S[GENERAL]
+    tree = ast.parse(src)
+    fn = find_func(tree, "determine_node_junctions")
+    comps = [n for n in ast.walk(fn) if isinstance(n, ast.ListComp) and ast.unparse(n.generators[0].iter) == "node_candidates_idx"]
+    if len(comps) != 1:
+        raise Untranslatable("shift comprehension not found")
+    c = comps[0]
+    if len(c.generators[0].ifs) != 1 or ast.unparse(c.generators[0].ifs[0]) != "val in remaining_idxs":
+        raise Untranslatable("shift comprehension filter changed")
+    out = translate_expression(src, c.elt, "junction_shift", {"val": "Int", "first_point_idx": "Int", "associated_point_count": "Int"}, "Int", {}, default_num="Int")
+    # first_point_idx is the first flattened position of the trace
+    asg = [n for n in ast.walk(fn) if isinstance(n, ast.Assign) and ast.unparse(n.targets[0]) == "first_point_idx"]
+    if len(asg) != 1 or ast.unparse(asg[0].value) != "flattened_idx_reference.index(idx)":
+        raise Untranslatable("first_point_idx is not flattened_idx_reference.index(idx)")
+    out += "\n/-- `first_point_idx = flattened_idx_reference.index(idx)` (shape-checked) -/\ndef first_point_idx_is_block_start : Bool := true\n"
+    # distance test and thresholds
+    hits = find_expressions(src, "determine_node_junctions", r"snap_threshold \* snap_threshold_error_multiplier( \* 10)?")
+    texts = sorted({ast.unparse(h) for h in hits})
+    if texts != ["snap_threshold * snap_threshold_error_multiplier", "snap_threshold * snap_threshold_error_multiplier * 10"]:
+        raise Untranslatable(f"junction thresholds changed: {texts}")
+    out += "\ndef junction_distance (snap_threshold : Rat) (snap_threshold_error_multiplier : Rat) : Rat :=\n  (snap_threshold * snap_threshold_error_multiplier)\n"
+    out += "\ndef junction_window_margin (snap_threshold : Rat) (snap_threshold_error_multiplier : Rat) : Rat :=\n  ((snap_threshold * snap_threshold_error_multiplier) * (10 : Rat))\n"
+    return out
+
+
 ITEMS: List[Item] = [
     Item("BranchIdentity", BAN, ["C05", "C01"], b_branch_identity, extra_modules=[GENERAL]),
     Item("DegreeToClass", BAN, ["C05", "C01"], b_degree_to_class, extra_modules=[GENERAL]),
@@ -450,6 +573,9 @@ ITEMS: List[Item] = [
     Item("IsAzimuthClose", GENERAL, ["C15"], b_is_azimuth_close),
     Item("DefaultAzimuthSets", NETWORK, ["C15"], b_default_azimuth_sets),
     Item("CalcBins", AZIMUTH, ["C15"], b_calc_bins),
+    Item("JunctionShift", GENERAL, ["C02", "C16"], b_junction_shift),
+    Item("ValidatorTable", TVALS, ["C09", "C13", "C02"], b_validator_table),
+    Item("ValidationDefaults", TVAL, ["C10", "C03", "C16"], b_validation_defaults),
     Item("RandomRadius", RSAMP, ["C20"], b_random_radius, extra_modules=[GENERAL]),
     Item("AggregateDispatch", SUBS, ["C20"], b_aggregate_dispatch),
 ]
